@@ -1,7 +1,7 @@
 #!/bin/bash
 # usage: seed_eval.sh <seed-dir-under-/tmp> <name>   e.g. seed_eval.sh /tmp/seed_C01 C01-a
 # Confirms a seeded change (compiles, suite unchanged, demo fails with / passes without), stores it under /verif/seeded/<name>,
-# then runs every qvet check against /repo with the patch applied and restores /repo.
+# then decides every property on a scratch worktree of /repo HEAD with the patch applied (nothing is written to /repo).
 set -u
 SD=$1; NAME=$2
 export GOFLAGS=-mod=mod GOPROXY=off
@@ -29,16 +29,10 @@ echo "== build + existing suite with the change"
 for d in $DEMOS; do rm -rf $d; done
 go build ./... 2>&1 | grep -v "^#\|writer/http\|unmarshal/legacy\|undefined: model\|cannot use" | head -5
 go test -vet=off -count=1 ./... 2>&1 | grep -v "no test files" | grep -v "^ok" | grep -v "writer/http\|unmarshal/legacy\|^#\|undefined: model\|cannot use [rw] \|^FAIL$" | head -10
-cd /verif; git -C /repo worktree remove --force $W
 echo "demo_without_exit=$A demo_with_exit=$B"
-# run the checks on /repo with the patch
-git -C /repo apply $OUT/patch.diff || { echo "PATCH DOES NOT APPLY TO /repo"; exit 5; }
-RES=""
-for p in $(./bin/qvet list | awk '{print $1}'); do
-  o=$(./bin/qvet check -property $p 2>&1); rc=$?
-  if [ $rc -ne 0 ]; then RES="$RES $p"; echo "--- $p flags:"; echo "$o" | grep -v "^VIOLATION\|^qvet\|KNOWN-FINDING" | cut -c1-400 | head -6; fi
-done
-git -C /repo checkout -- . ; git -C /repo status --short | head -3
-echo "CAUGHT_BY:$RES"
-# restore clean evidence
-for p in $(./bin/qvet list | awk '{print $1}'); do ./bin/qvet check -property $p >/dev/null 2>&1; done
+# decide every property on the scratch worktree with the change applied (tools/seed_rerun.sh repeats this against /repo itself)
+cd /verif
+o=$(QVET_REPO=$W ./bin/qvet verdicts 2>&1)
+echo "$o" | grep "^   \[" | cut -c1-400 | head -12
+echo "CAUGHT_BY:$(echo "$o" | awk '$2=="ALARM"{printf " %s",$1}')"
+git -C /repo worktree remove --force $W
